@@ -152,6 +152,10 @@ impl NodeSession {
     }
 
     fn new_connection_id() -> u64 {
+        #[cfg(ractor_verif)]
+        if let Some(id) = crate::verif::take_connection_id() {
+            return id;
+        }
         let mut rng = rand::rng();
         loop {
             let connection_id = rng.random();
@@ -419,6 +423,14 @@ impl NodeSession {
         if let Some(msg) = message.msg {
             match msg {
                 node_protocol::node_message::Msg::Cast(cast_args) => {
+                    #[cfg(ractor_verif)]
+                    crate::verif::sess_fwd(
+                        &self.this_node_name.name,
+                        cast_args.to,
+                        "cast",
+                        0,
+                        state.authorized_local_actor(cast_args.to).is_some(),
+                    );
                     if let Some(actor) = state.authorized_local_actor(cast_args.to) {
                         let _ = actor.send_serialized(SerializedMessage::Cast {
                             variant: cast_args.variant,
@@ -430,6 +442,14 @@ impl NodeSession {
                 node_protocol::node_message::Msg::Call(call_args) => {
                     let to = call_args.to;
                     let tag = call_args.tag;
+                    #[cfg(ractor_verif)]
+                    crate::verif::sess_fwd(
+                        &self.this_node_name.name,
+                        to,
+                        "call",
+                        tag,
+                        state.authorized_local_actor(to).is_some(),
+                    );
                     if let Some(actor) = state.authorized_local_actor(call_args.to) {
                         let (tx, rx) = ractor::concurrency::oneshot();
 
@@ -492,6 +512,13 @@ impl NodeSession {
                     }
                 }
                 node_protocol::node_message::Msg::Reply(call_reply_args) => {
+                    #[cfg(ractor_verif)]
+                    crate::verif::sess_reply(
+                        &self.this_node_name.name,
+                        call_reply_args.to,
+                        call_reply_args.tag,
+                        state.remote_actors.contains_key(&call_reply_args.to),
+                    );
                     if let Some(actor) = state.remote_actors.get(&call_reply_args.to) {
                         let _ = actor.send_serialized(SerializedMessage::CallReply(
                             call_reply_args.tag,
@@ -533,6 +560,8 @@ impl NodeSession {
                 },
                 control_protocol::control_message::Msg::Spawn(spawned_actors) => {
                     for net_actor in spawned_actors.actors {
+                        #[cfg(ractor_verif)]
+                        crate::verif::sess_ctl(&self.this_node_name.name, "spawn", net_actor.pid, "");
                         if let Err(spawn_err) = self
                             .get_or_spawn_remote_actor(
                                 &myself,
@@ -550,6 +579,8 @@ impl NodeSession {
                 }
                 control_protocol::control_message::Msg::Terminate(termination) => {
                     for pid in termination.ids {
+                        #[cfg(ractor_verif)]
+                        crate::verif::sess_ctl(&self.this_node_name.name, "term", pid, "");
                         if let Some(actor) = state.remote_actors.remove(&pid) {
                             actor
                                 .stop_and_wait(Some("remote".to_string()), None)
@@ -577,6 +608,8 @@ impl NodeSession {
                 control_protocol::control_message::Msg::PgJoin(join) => {
                     let mut cells = vec![];
                     for control_protocol::Actor { name, pid } in join.actors {
+                        #[cfg(ractor_verif)]
+                        crate::verif::sess_ctl(&self.this_node_name.name, "join", pid, &join.group);
                         match self
                             .get_or_spawn_remote_actor(&myself, name, pid, state)
                             .await
@@ -603,6 +636,8 @@ impl NodeSession {
                 control_protocol::control_message::Msg::PgLeave(leave) => {
                     let mut cells = vec![];
                     for control_protocol::Actor { pid, .. } in leave.actors {
+                        #[cfg(ractor_verif)]
+                        crate::verif::sess_ctl(&self.this_node_name.name, "leave", pid, &leave.group);
                         if let Some(actor) = state.remote_actors.get(&pid) {
                             cells.push(actor.get_cell());
                         }
